@@ -308,6 +308,52 @@ static json_object *double_via_history(double d)
 		return n;
 	}
 }
+/* the small exported functions beside the object model: version, sizes, the null constructor, json_parse_double, the default
+ * iterator, the key comparison functions of linkhash, and the debug switches of debug.c (a two-flag state machine) */
+#include "json_c_version.h"
+#include "json_object_iterator.h"
+#include "linkhash.h"
+#include "debug.h"
+static void misc_facts(void)
+{
+	double d = -1;
+	int pd_ok = json_parse_double("1.5", &d) == 0 && d == 1.5;
+	double d2 = 7;
+	int pd_bad = json_parse_double("x", &d2) != 0;
+	struct json_object_iterator i1 = json_object_iter_init_default(), i2 = json_object_iter_init_default();
+	char k1[] = "key", k2[] = "key", k3[] = "kez";
+	ev_begin("misc");
+	ev_bool("version", !strcmp(json_c_version(), JSON_C_VERSION) && json_c_version_num() == JSON_C_VERSION_NUM);
+	ev_bool("sizeof_pos", json_c_object_sizeof() > 0);
+	ev_bool("null_is_null", json_object_new_null() == NULL);
+	ev_bool("parse_double", pd_ok && pd_bad);
+	ev_bool("iter_default", json_object_iter_equal(&i1, &i2));
+	ev_bool("char_equal", lh_char_equal(k1, k2) != 0 && lh_char_equal(k1, k3) == 0);
+	ev_bool("ptr_equal", lh_ptr_equal(k1, k1) != 0 && lh_ptr_equal(k1, k2) == 0);
+	/* debug.c: set / get of the debug flag, under either log destination; the log functions return (to stderr, silenced) */
+	long long seen[4];
+	int n = 0;
+	FILE *keep = stderr;
+	stderr = fopen("/dev/null", "w");
+	for (int sys = 0; sys < 2; sys++)
+		for (int dbg = 1; dbg >= 0; dbg--)
+		{
+			mc_set_syslog(sys);
+			mc_set_debug(dbg);
+			/* (with the debug flag on and no syslog, mc_debug prints to stdout - where the events go: only called otherwise) */
+			if (!dbg || sys)
+				mc_debug("vh %d\n", 1);
+			mc_info("vh %d\n", 2);
+			mc_error("vh %d\n", 3);
+			seen[n++] = mc_get_debug();
+		}
+	mc_set_syslog(0);
+	if (stderr)
+		fclose(stderr);
+	stderr = keep;
+	ev_ints("debug_seen", seen, 4);
+	ev_end();
+}
 static int drive(int start, int nexec)
 {
 	const char *seed = getenv("VERIF_SEED");
@@ -318,6 +364,8 @@ static int drive(int start, int nexec)
 		vh_srand(s0 * 1000003ull + (uint64_t)x);
 		ev_begin("new");
 		ev_end();
+		if (x == start)
+			misc_facts();
 		/* integer sources, both stores */
 		for (int k = 0; k < 12; k++)
 		{
